@@ -74,8 +74,10 @@ func (l *evlog) snapshot() []Ev {
 // the world of one child process
 
 type world struct {
-	mods [2]*modules.Module
-	cur  atomic.Pointer[histRun]
+	mods  []*modules.Module
+	mgmt  bool            // module management enabled: mods = storage <- service <- app (only app is enabled itself)
+	other *modules.Module // unrelated module that the management passes switch on and off
+	cur   atomic.Pointer[histRun]
 
 	// sentinel: a harness task outside all histories (MaxDelay 0: never in the
 	// schedule). One pass of it through the normal queue is a barrier for the queue
@@ -92,17 +94,18 @@ type world struct {
 }
 
 type taskRun struct {
-	idx     int
-	name    string
-	spec    TaskSpec
-	t       *modules.Task
-	hr      *histRun
-	runs    atomic.Int32 // begins
-	ends    atomic.Int32
-	active  atomic.Int32
-	decided atomic.Int32  // schedule handler decisions about this task (modules.sched.decided)
-	subs    atomic.Int32  // submissions (Queue/QueuePrioritized/StartASAP/Schedule) called so far
-	block   chan struct{} // if non-nil: the first execution waits for it before returning
+	idx       int
+	name      string
+	spec      TaskSpec
+	t         *modules.Task
+	hr        *histRun
+	runs      atomic.Int32 // begins
+	ends      atomic.Int32
+	active    atomic.Int32
+	withdrawn atomic.Bool   // a Cancel or Schedule(zero) has been called for the task (set before the call)
+	decided   atomic.Int32  // schedule handler decisions about this task (modules.sched.decided)
+	subs      atomic.Int32  // submissions (Queue/QueuePrioritized/StartASAP/Schedule) called so far
+	block     chan struct{} // if non-nil: the first execution waits for it before returning
 }
 
 type park struct {
@@ -143,6 +146,7 @@ type histRun struct {
 	// submission whose call precedes it, so this is a violation on any schedule), or
 	// when the logical execution/event cap of the history is exceeded. The history is
 	// then stopped (no quiescence needed) and decided on the log recorded so far.
+	lastAt      time.Time // time value of the latest Schedule call (Op.Same)
 	noStructure bool
 	noQuiesce   bool // the plan is decided at its own idle point; tasks stay scheduled far in the future
 	q0, p0, s0  int  // list lengths when the history started (leftovers of earlier histories)
@@ -188,11 +192,19 @@ const (
 	hkSched   = "modules.sched.decided" // schedule handler: after its unlock, before runWithLocking / StartASAP
 )
 
-func startWorld() (*world, error) {
-	w := &world{}
+func startWorld(mgmt bool) (*world, error) {
+	w := &world{mgmt: mgmt}
 	nop := func() error { return nil }
-	w.mods[0] = modules.Register("vtasks0", nop, nop, nop)
-	w.mods[1] = modules.Register("vtasks1", nop, nop, nop, "vtasks0")
+	w.mods = append(w.mods, modules.Register("vtasks0", nop, nop, nop))
+	w.mods = append(w.mods, modules.Register("vtasks1", nop, nop, nop, "vtasks0"))
+	if mgmt {
+		// app -> service -> storage: only the app is enabled itself, the other two run
+		// as its first- and second-level dependencies
+		w.mods = append(w.mods, modules.Register("vtasks2", nop, nop, nop, "vtasks1"))
+		w.other = modules.Register("vother", nop, nop, nop)
+		modules.EnableModuleManagement(func(*modules.Module) {})
+		w.mods[2].Enable()
+	}
 	log.SetLogLevel(log.CriticalLevel)
 	// keep os.Args free of anything flag.Parse (called by modules.Start) could trip over
 	os.Args = os.Args[:1]
@@ -329,9 +341,12 @@ func (hr *histRun) do(client string, in int, o Op) {
 	}
 	tr := hr.tasks[o.Task]
 	id := int(hr.opID.Add(1))
+	runsBefore := tr.runs.Load()
 	switch o.Kind {
 	case opQueue, opQueueP, opASAP, opSchedule:
 		tr.subs.Add(1) // before the call is issued: in-flight submissions count
+	case opCancel, opUnsched:
+		tr.withdrawn.Store(true)
 	}
 	switch o.Kind {
 	case opQueue:
@@ -346,6 +361,12 @@ func (hr *histRun) do(client string, in int, o Op) {
 	case opSchedule:
 		now := time.Now()
 		at := now.Add(time.Duration(o.OffMs) * time.Millisecond)
+		hr.rmu.Lock()
+		if o.Same && !hr.lastAt.IsZero() {
+			at = hr.lastAt // the identical time.Time value
+		}
+		hr.lastAt = at
+		hr.rmu.Unlock()
 		hr.log.rec(Ev{K: "call", C: client, Op: o.Kind, Task: o.Task, ID: id, In: in, T: rel(now), At: rel(at)})
 		tr.t.Schedule(at)
 	case opMaxDelay:
@@ -355,10 +376,42 @@ func (hr *histRun) do(client string, in int, o Op) {
 	case opCancel:
 		hr.log.rec(Ev{K: "call", C: client, Op: o.Kind, Task: o.Task, ID: id, In: in})
 		tr.t.Cancel()
+	case opUnsched:
+		hr.log.rec(Ev{K: "call", C: client, Op: o.Kind, Task: o.Task, ID: id, In: in})
+		tr.t.Schedule(time.Time{})
 	default:
 		return
 	}
 	hr.log.rec(Ev{K: "ret", C: client, Op: o.Kind, Task: o.Task, ID: id, In: in})
+	switch o.Kind {
+	case opQueue, opQueueP, opASAP, opSchedule:
+		hr.checkEffect(tr, o.Kind, runsBefore)
+	}
+}
+
+// checkEffect decides online whether a submission that has just returned had any effect.
+// On the unchanged code a submission on a task that was never cancelled or withdrawn
+// leaves the task in at least one list (under the task lock), until a start takes it out
+// - and a start makes the task executing and then increments its run counter. So if,
+// after the call returned, the task is in no list, not executing, and has not begun a run
+// since before the call, while no Cancel / Schedule(zero) was ever called for it and its
+// module reports Online, the submission was silently dropped: nothing is left that could
+// execute the task. That is "lost" on any schedule; the history is stopped at once
+// instead of waiting for watchdogs.
+func (hr *histRun) checkEffect(tr *taskRun, kind string, runsBefore int32) {
+	if hr.abort.Load() {
+		return
+	}
+	ex, _, qd, pr, sc := tr.t.VerifTaskState()
+	if ex || qd || pr || sc || tr.active.Load() != 0 || tr.runs.Load() != runsBefore {
+		return
+	}
+	if tr.withdrawn.Load() || !hr.w.modsOnline() {
+		return
+	}
+	hr.log.rec(Ev{K: "mark", Op: "no-effect:" + kind, Task: tr.idx,
+		C: fmt.Sprintf("%s on task t%d returned, but the task is in no list, not executing and has not begun since before the call (no Cancel or Schedule(zero) was ever called for it, its module reports Online): the submission was dropped", kind, tr.idx)})
+	hr.setAbort(false, "a submission had no effect")
 }
 
 func (tr *taskRun) fn(ctx context.Context, _ *modules.Task) error {
@@ -418,7 +471,11 @@ func (w *world) newHist(h *Hist) *histRun {
 	for _, tr := range hr.tasks {
 		id := int(hr.opID.Add(1))
 		hr.log.rec(Ev{K: "call", C: "setup", Op: opNewTask, Task: tr.idx, ID: id})
-		tr.t = w.mods[tr.spec.Mod%2].NewTask(tr.name, tr.fn)
+		mi := tr.spec.Mod % 2
+		if w.mgmt {
+			mi = (tr.spec.Mod + tr.idx) % 3
+		}
+		tr.t = w.mods[mi].NewTask(tr.name, tr.fn)
 		hr.log.rec(Ev{K: "ret", C: "setup", Op: opNewTask, Task: tr.idx, ID: id})
 	}
 	return hr
@@ -496,6 +553,15 @@ func (hr *histRun) read() reading {
 		}
 	}
 	r.q, r.p, r.s = modules.VerifTaskLists()
+	// the two sentinels are the only tasks outside the history that can be listed
+	for _, st := range []*modules.Task{hr.w.sentinel, hr.w.schedSentinel} {
+		_, _, qd, pr, sc := st.VerifTaskState()
+		for i, in := range []bool{qd, pr, sc} {
+			if in {
+				*[]*int{&r.q, &r.p, &r.s}[i]--
+			}
+		}
+	}
 	r.states = fmt.Sprintf("%s|%d,%d,%d", sb.String(), r.q, r.p, r.s)
 	return r
 }
@@ -607,7 +673,7 @@ func (hr *histRun) quiesce(limit time.Duration, supervise bool) bool {
 			idleSeen = false
 			// not idle, but nothing moved since the last poll: is the bookkeeping itself
 			// inconsistent (then quiescence can never be reached or means nothing)?
-			if s == prevPoll && i > 20 && i%8 == 0 && hr.checkStructure() {
+			if s == prevPoll && i > 20 && i%8 == 0 && (hr.checkStructure() || hr.checkStuck()) {
 				return false
 			}
 		}
@@ -666,21 +732,23 @@ func (hr *histRun) runClients() {
 
 // result of one executed history
 type histResult struct {
-	Aborted   string // online monitor stopped the history (reason)
-	Capped    bool   // ... because of the logical cap, not because of runs > submissions
-	NoQuiesce bool   // decided at the plan's own idle point, quiescence not awaited
-	Partial   bool   // log of a history that was still running when the child's watchdog fired
-	Hist      *Hist
-	Events    []Ev
-	Quiescent bool
-	Failed    string
-	Notes     []string
-	SupCancel int
-	WallMs    int64
+	Aborted    string // online monitor stopped the history (reason)
+	Capped     bool   // ... because of the logical cap, not because of runs > submissions
+	ModsOnline bool   // all task modules reported Online at the end of the history
+	NoQuiesce  bool   // decided at the plan's own idle point, quiescence not awaited
+	Partial    bool   // log of a history that was still running when the child's watchdog fired
+	Hist       *Hist
+	Events     []Ev
+	Quiescent  bool
+	Failed     string
+	Notes      []string
+	SupCancel  int
+	WallMs     int64
 }
 
 func (w *world) run(h *Hist) *histResult {
 	t0 := time.Now()
+	w.mgmtPass()
 	hr := w.newHist(h)
 	limit := 150 * time.Second
 	quiet := false
@@ -700,6 +768,7 @@ func (w *world) run(h *Hist) *histResult {
 	for _, tr := range hr.tasks {
 		tr.t.Cancel()
 		tr.t.Schedule(time.Time{}) // takes the cancelled task out of all lists right away
+		w.schedSentinel.Schedule(time.Time{})
 		if tr.block != nil {
 			select {
 			case <-tr.block:
@@ -723,7 +792,8 @@ func (w *world) run(h *Hist) *histResult {
 	})
 	w.cur.Store(nil)
 	why, capped := hr.aborted()
-	return &histResult{Hist: h, Events: evs, Quiescent: quiet && why == "", Failed: hr.failed, Notes: hr.notes, SupCancel: hr.supN,
+	online := w.modsOnline()
+	return &histResult{ModsOnline: online, Hist: h, Events: evs, Quiescent: quiet && why == "", Failed: hr.failed, Notes: hr.notes, SupCancel: hr.supN,
 		WallMs: time.Since(t0).Milliseconds(), Aborted: why, Capped: capped, NoQuiesce: hr.noQuiesce}
 }
 
@@ -774,7 +844,10 @@ func (hr *histRun) runGate(limit time.Duration) bool {
 		return false
 	}
 	hr.mark("gate-closed")
-	for _, o := range hr.h.Clients[0] {
+	for i, o := range hr.h.Clients[0] {
+		if i == len(hr.h.Clients[0])/2 {
+			hr.w.mgmtPass() // only the gate task runs, and it makes no calls
+		}
 		hr.do("c0", 0, o)
 	}
 	hr.mark("gate-open")
@@ -931,6 +1004,27 @@ func (hr *histRun) runPlan(limit time.Duration) bool {
 		}
 		hr.checkScheduleOrder(model)
 		return false
+	case "same-instant":
+		// two tasks scheduled for the identical time value: both have to be started
+		hr.do(c, 0, Op{Kind: opSchedule, Task: T, OffMs: md})
+		hr.do(c, 0, Op{Kind: opSchedule, Task: U, Same: true})
+		hr.do(c, 0, Op{Kind: opSchedule, Task: V, OffMs: md + 15})
+	case "unschedule-queued":
+		// T waits in the queue behind the running U (its schedule entry is its max-delay
+		// deadline) and is withdrawn with Schedule(zero): on the unchanged code that
+		// takes it out of the queue and the schedule. V is queued afterwards (wakes the
+		// schedule handler); a pass of the schedule sentinel proves that the handler has
+		// looked at everything that was due. T must not be started while U runs.
+		hr.tasks[U].block = make(chan struct{})
+		hr.do(c, 0, Op{Kind: opQueue, Task: U})
+		if hr.waitBegin(U, 1) {
+			hr.do(c, 0, Op{Kind: vlibPickKind(hr), Task: T})
+			hr.do(c, 0, Op{Kind: opUnsched, Task: T})
+			hr.do(c, 0, Op{Kind: opQueue, Task: V})
+			hr.schedBarrier()
+			hr.mark("queued-task-withdrawn-while-queue-busy")
+		}
+		close(hr.tasks[U].block)
 	case "stale-queue-pop":
 		// Mirror image of the stale overdue decision: the queue handler pops T and is
 		// parked at the entry of runWithLocking (before the task lock). T's short max
@@ -1132,4 +1226,109 @@ func (hr *histRun) checkScheduleOrder(model map[int]time.Time) {
 		hr.log.rec(Ev{K: "mark", Op: "structure:schedule-order", Task: -1,
 			C: fmt.Sprintf("after %d sequential Schedule calls by one client on never-due tasks the schedule is not sorted by execution time: %s; list order: %v", len(hr.h.Clients[1]), bad, order)})
 	}
+}
+
+// mgmtPass is one module-management pass for something unrelated to the task modules:
+// the "other" module is switched on or off and ManageModules rebuilds the enabled tree.
+// It is only called at points where no task call is in flight and no task function
+// runs inner calls (the rebuild un-marks and re-marks all dependencies; a submission
+// falling into that moment is a different question and is not driven here).
+func (w *world) mgmtPass() {
+	if !w.mgmt {
+		return
+	}
+	w.other.SetEnabled(!w.other.Enabled())
+	_ = modules.ManageModules()
+}
+
+func (w *world) modsOnline() bool {
+	for _, m := range w.mods {
+		if !m.Online() {
+			return false
+		}
+	}
+	return true
+}
+
+// schedHandlerParked reports whether the goroutine dump shows the schedule handler
+// goroutine blocked in its own select (not running, not inside a call).
+func schedHandlerParked() bool {
+	buf := make([]byte, 1<<20)
+	buf = buf[:runtime.Stack(buf, true)]
+	for _, blk := range strings.Split(string(buf), "\n\n") {
+		lines := strings.Split(blk, "\n")
+		if len(lines) < 2 || !strings.HasPrefix(lines[0], "goroutine ") {
+			continue
+		}
+		top := ""
+		for _, ln := range lines[1:] {
+			if ln == "" || ln[0] == '\t' || strings.HasPrefix(ln, "runtime.") {
+				continue
+			}
+			top = ln
+			break
+		}
+		if !strings.Contains(top, "modules.taskScheduleHandler(") {
+			continue
+		}
+		st := lines[0]
+		if i := strings.Index(st, "["); i >= 0 {
+			st = st[i+1:]
+		}
+		return strings.HasPrefix(st, "select]") || strings.HasPrefix(st, "select,")
+	}
+	return false
+}
+
+// checkStuck decides whether the schedule handler is stuck: nothing executes, both
+// queues are empty, no event since the last poll, yet the first entry of the schedule
+// is due (by more than 50 ms on the monotonic clock). The handler is then woken three
+// times (a Schedule call of the schedule sentinel sends the wake-up before it returns);
+// after each wake-up it must be seen parked in its select again (a goroutine parks in a
+// select only if no case is ready, so the wake-up has been consumed and the head of the
+// schedule has been evaluated since) with the same due head, no decision about any task
+// in between. On the unchanged code every evaluation of a due head arms a timer that is
+// already expired, whose firing leads to a decision (modules.sched.decided) about the
+// head; three consecutive evaluations without a decision mean that the handler waits on
+// something that will not fire for this head. (Assumption, stated in the evidence: an
+// expired Go timer fires before its waiter has been woken and parked again three times.)
+func (hr *histRun) checkStuck() bool {
+	if hr.anyExecuting() {
+		return false
+	}
+	q, p, _ := modules.VerifTaskLists()
+	if q+p != 0 {
+		return false
+	}
+	head := func() (string, bool) {
+		names, at := modules.VerifScheduleOrder()
+		if len(names) == 0 || time.Since(at[0]) < 50*time.Millisecond || names[0] == schedSentinelName {
+			return "", false
+		}
+		return fmt.Sprintf("%s@%d", names[0], at[0].UnixNano()), true
+	}
+	h0, due := head()
+	if !due {
+		return false
+	}
+	seq := hr.log.now()
+	dec := hr.w.schedDecided.Load()
+	for round := 0; round < 3; round++ {
+		hr.w.schedSentinel.Schedule(time.Now().Add(-time.Millisecond)) // wakes the handler
+		if !waitForAbort(&hr.abort, 2*time.Second, schedHandlerParked) {
+			return false
+		}
+		if h, d := head(); !d || h != h0 || hr.log.now() != seq || hr.w.schedDecided.Load() != dec || hr.anyExecuting() {
+			return false
+		}
+	}
+	tr := hr.byName[strings.SplitN(h0, "@", 2)[0]]
+	who := "a task"
+	if tr != nil {
+		who = fmt.Sprintf("task t%d", tr.idx)
+	}
+	hr.log.rec(Ev{K: "mark", Op: "stuck:schedule-handler-parked-with-due-head", Task: -1,
+		C: fmt.Sprintf("the first entry of the schedule (%s) is due for more than 50 ms, both queues are empty and nothing executes, but the schedule handler does not act on it: woken three times, it was each time found parked in its select again without any decision (modules.sched.decided) about any task", who)})
+	hr.setAbort(false, "the schedule handler is stuck with a due head entry")
+	return true
 }
